@@ -27,7 +27,7 @@ type uDef struct {
 	// have that type too (they are part of the residual map), and the instances carry the extra members given here
 	AddlSchema map[string]any `json:"additional_properties_schema,omitempty"`
 	AddlExtras map[string]any `json:"additional_members,omitempty"`
-	Pkg      string            `json:"pkg"`
+	Pkg        string         `json:"pkg"`
 }
 
 var uMembers = map[string]map[string]any{
